@@ -114,7 +114,10 @@ RejectWhy(r) ==
 ArgvWhy(r) ==
   LET named == { <<x[1], x[2]>> : x \in RangeOf(r.named) }
       want  == Argv(r.base, named, r.requested, r.args, r.nobase)
-  IN IF r.observed.started # 1 THEN "C11:executable not started exactly once"
+  IN IF "defmissing" \in DOMAIN r /\ r.defmissing
+     THEN \* the configured definition path is THE executable: when it does not exist, nothing else may be started instead
+          (IF r.observed.started # 0 THEN "C11:another executable was started although the configured definition path does not exist" ELSE "")
+     ELSE IF r.observed.started # 1 THEN "C11:executable not started exactly once"
      ELSE IF r.observed.argv # want THEN "C11:argument list differs from base ++ requested argmaps ++ args"
      ELSE IF r.observed.cwd # r.target THEN "C11:working directory is not the target directory"
      ELSE IF ~ResolveOK(r.defpath, r.hasdef, RangeOf(r.candidates), r.cmd, r.observed.exe) THEN "C11:wrong executable resolved"
